@@ -152,6 +152,30 @@ def run(tier):
                 if words is not None:
                     acts.append(eval_action(words, tag={"k": "line", "line": line_json(variant)}))
         blocks.append((cfg, acts))
+    # fixed-size destinations (int[3], std::array<int,3>) and the sortable containers with sort and unique data together: value lists
+    # from a small pool, so that a value comes again behind a smaller one inside one list, in the next list, in a free value
+    for _ in range(60 if tier == "quick" else 1500):
+        kind = g.r.choice(["arr3", "sarr3", "arr3", "sarr3", "vecint", "listint", "fwdint"])
+        cfg = g.cfg(nargs=g.r.randint(1, 3), kinds=[kind, kind, "flag"], constraints=False, allow_pos=False)
+        conts = [i + 1 for i, a in enumerate(cfg["args"]) if a["kind"] == kind]
+        if not conts:
+            continue
+        for i in conts:
+            a = cfg["args"][i - 1]
+            a["formats"] = []; a["checks"] = []; a["card"] = {"t": "dflt", "a": 0, "b": 0}; a["mand"] = False; a["clear"] = False
+            a["multi"] = g.r.random() < 0.5; a["sort"] = g.r.random() < 0.8; a["uniq"] = g.r.choice(["ignore", "ignore", "error", "no"])
+        acts = []
+        for _ in range(nlines + 2):
+            line = []
+            for i in g.r.sample(conts, g.r.randint(1, len(conts))):
+                pool = g.r.sample([5, 3, 8, 2, 9, 1], g.r.randint(2, 3))
+                vals = [str(g.r.choice(pool)) for _ in range(g.r.randint(2, 5))]
+                line.append([i, vals])
+            for variant in (line, cuts(g, cfg, line)):
+                words = g.spell_line(cfg, variant)
+                if words is not None:
+                    acts.append(eval_action(words, tag={"k": "line", "line": line_json(variant)}))
+        blocks.append((cfg, acts))
     script2 = os.path.join(c.wd, "random.ndjson")
     write_cases(script2, blocks)
     rej, tr = run_script(c, exe, script2, "T")
